@@ -733,6 +733,7 @@ package vuego
 //@   assert C06.props.scope: len(ctx.stack.stack) == old(len(ctx.stack.stack)) + 1 && fresh(slotProps) at "v.evaluateChildren(outer, slotContent.TemplateNode, depth+1)"
 //@   ensures C06.balance: BALANCED(ctx)
 //@   loop 2 invariant C06.balance.loop: len(ctx.stack.stack) == old(len(ctx.stack.stack)) + 1 && (forall bi int :: 0 <= bi && bi < old(len(ctx.stack.stack)) ==> ctx.stack.stack[bi] == old(ctx.stack.stack[bi]))
+//@   loop 3 invariant C06.balance.loop: len(ctx.stack.stack) == old(len(ctx.stack.stack)) + 1 && (forall bi int :: 0 <= bi && bi < old(len(ctx.stack.stack)) ==> ctx.stack.stack[bi] == old(ctx.stack.stack[bi]))
 
 // ---- v-once bookkeeping (C16) ----
 
